@@ -40,7 +40,40 @@ def dedupSorted : List Nat → List Nat
   | [a] => [a]
   | a :: b :: rest => if a == b then dedupSorted (b :: rest) else a :: dedupSorted (b :: rest)
 
-/-- lower-case letters, digits and underscore -/
-def nameChar (b : Nat) : Bool := (97 ≤ b && b ≤ 122) || (48 ≤ b && b ≤ 57) || b == 95
+/-- a byte allowed in a lint name: visible ASCII that is not an upper-case letter ("lower-case name";
+    two registered names contain a hyphen, so the set is not narrowed to [a-z0-9_]) -/
+def nameChar (b : Nat) : Bool := (33 ≤ b && b ≤ 126) && !(65 ≤ b && b ≤ 90)
+
+
+/-- merge of two sorted lists (structural on the sum of lengths via fuel) -/
+def mergeNat : Nat → List Nat → List Nat → List Nat
+  | 0, a, b => a ++ b
+  | _ + 1, [], b => b
+  | _ + 1, a, [] => a
+  | f + 1, x :: xs, y :: ys => if x ≤ y then x :: mergeNat f xs (y :: ys) else y :: mergeNat f (x :: xs) ys
+
+def splitAlt : List Nat → List Nat × List Nat
+  | [] => ([], [])
+  | [a] => ([a], [])
+  | a :: b :: rest => let (l, r) := splitAlt rest; (a :: l, b :: r)
+
+/-- merge sort with explicit fuel (depth); `msort` uses enough fuel for lists below 2^32 elements -/
+def msortFuel : Nat → List Nat → List Nat
+  | 0, l => l
+  | _ + 1, [] => []
+  | _ + 1, [a] => [a]
+  | f + 1, l => let (a, b) := splitAlt l; mergeNat l.length (msortFuel f a) (msortFuel f b)
+
+def msort (l : List Nat) : List Nat := msortFuel 32 l
+
+/-- bytes of a number, least significant first, `fuel` of them -/
+def bytesLE : Nat → Nat → List Nat
+  | 0, _ => []
+  | f + 1, k => (k % 256) :: bytesLE f (k / 256)
+
+/-- a padded key read from the least significant end: NUL padding first, then only allowed name bytes -/
+def paddedNameOK : List Nat → Bool
+  | [] => true
+  | b :: rest => if b == 0 then paddedNameOK rest else (b :: rest).all nameChar
 
 end Zl
